@@ -434,6 +434,7 @@ func init() {
 		return "ok " + toHex([]byte(e.SignatureHeaderValue))
 	})
 	// go-only: MI-encode (rs > 0) and sign with a real key; prints the resulting exchange
+	signCalls := 0
 	register("sxg.sign", func(args []string) string {
 		e, rest := parseExchange(args)
 		rs, _ := strconv.Atoi(rest[0])
@@ -443,10 +444,84 @@ func init() {
 			}
 		}
 		s := mkSigner(rest[1:], false)
+		// object history: every second call in a process hands AddSignatureHeader a Signer that has already signed something else
+		// (a Signer is meant to be reused; nothing of the first signature may leak into the second)
+		signCalls++
+		if signCalls%2 == 0 {
+			prior, _ := parseExchange(args)
+			prior.Payload = append([]byte("earlier use of this signer: "), prior.Payload...)
+			prior.AddSignatureHeader(s)
+		}
 		if err := e.AddSignatureHeader(s); err != nil {
 			return "err sign"
 		}
 		return "ok " + showExchange(e)
+	})
+	// an exchange that already carries a Signature header; a further AddSignatureHeader that FAILS (signer without key / with an
+	// unusable cert-url or validity-url) must leave that header alone. args: <exchange> <cert> <mode>
+	register("sxg.resign.fail", func(args []string) string {
+		e, rest := parseExchange(args)
+		before := e.SignatureHeaderValue
+		cert, err := x509.ParseCertificate(ofHex(rest[0]))
+		if err != nil {
+			panic("bad-op")
+		}
+		s := &sxg.Signer{Certs: []*x509.Certificate{cert}, CertUrl: mustURL(hexOf("https://example.com/cert.cbor")), ValidityUrl: mustURL(hexOf("https://example.com/v")),
+			Date: time.Unix(1517418800, 0), Expires: time.Unix(1517418800+3600, 0)}
+		switch rest[1] {
+		case "nokey":
+		case "httpcert":
+			s.Algorithm = &signingalgorithm.MockSigningAlgorithm{}
+			s.CertUrl = mustURL(hexOf("http://example.com/cert.cbor"))
+		case "badvalidity":
+			s.Algorithm = &signingalgorithm.MockSigningAlgorithm{}
+			s.ValidityUrl = mustURL(hexOf("https://example.com/v?v=\u00e4"))
+		case "nocerts":
+			s.Algorithm = &signingalgorithm.MockSigningAlgorithm{}
+			s.Certs = nil
+		default:
+			panic("bad-op")
+		}
+		err2 := func() (err error) {
+			defer func() {
+				if r := recover(); r != nil {
+					err = fmt.Errorf("panic: %v", r)
+				}
+			}()
+			return e.AddSignatureHeader(s)
+		}()
+		if err2 == nil {
+			return "resigned"
+		}
+		if e.SignatureHeaderValue != before {
+			return "changed " + toHex([]byte(e.SignatureHeaderValue))
+		}
+		return "same"
+	})
+	// independent producer: ECDSA signature (ASN.1 DER) over SHA-256/384 of <msg> with the PKCS#8 key; no library code involved
+	register("oracle.ecsign", func(args []string) string {
+		k, err := x509.ParsePKCS8PrivateKey(ofHex(args[0]))
+		if err != nil {
+			panic("bad-op")
+		}
+		ek, ok := k.(*ecdsa.PrivateKey)
+		if !ok {
+			panic("bad-op")
+		}
+		msg := ofHex(args[1])
+		var digest []byte
+		if ek.Curve == elliptic.P384() {
+			d := sha512.Sum384(msg)
+			digest = d[:]
+		} else {
+			d := sha256.Sum256(msg)
+			digest = d[:]
+		}
+		sig, err := ecdsa.SignASN1(rand.Reader, ek, digest)
+		if err != nil {
+			return "err"
+		}
+		return "ok " + toHex(sig)
 	})
 	register("sxg.read", func(args []string) string {
 		e, err := sxg.ReadExchange(bytes.NewReader(ofHex(args[0])))
@@ -634,3 +709,5 @@ func mkSignerForConc(rest []string) *sxg.Signer {
 	return &sxg.Signer{Certs: []*x509.Certificate{cert}, CertUrl: mustURL(rest[1]), ValidityUrl: mustURL(rest[2]),
 		Date: time.Unix(d, 0), Expires: time.Unix(x, 0), Algorithm: &signingalgorithm.MockSigningAlgorithm{}}
 }
+
+func hexOf(x string) string { return toHex([]byte(x)) }
